@@ -265,6 +265,21 @@ def gen_chain(rng, idx):
         elif v == 3 and simple:
             opts['max_range'] = rng.randint(0, 2)
         final.append(['to_TermList', opts])
+    if ungrouped and last['segment'] is None and not has_alpha and kind == 'SpinHalf' and \
+            all(len(set(k for _, k in t)) == len(t) for t, _ in rep['terms']):
+        # prefactor of the words of some terms of the RESULT (and of one absent word)
+        prefs = []
+        for t, _ in rep['terms'][:3]:
+            tt = sorted(t, key=lambda x: x[1])
+            ops_ = ['Id'] * (tt[-1][1] - tt[0][1] + 1)
+            for o_, k in tt:
+                ops_[k - tt[0][1]] = o_
+            if [tt[0][1], ops_] not in prefs and tt[0][1] + len(ops_) <= N:
+                prefs.append([tt[0][1], ops_])
+        prefs.append([0, ['Sz', 'Sp']] if conserve is None else [0, ['Sz', 'Id', 'Sz']])
+        if finite:
+            prefs = [p_ for p_ in prefs if p_[0] + len(p_[1]) <= L]
+        final.append(['prefactor', prefs])
     if finite and last['segment'] is None and not flag and idx % 3 == 0 and not any(x[0] == 'plus_identity' for x in steps):
         # (make_U_I asserts that all markers are known: not the case after plus_identity)
         t0 = rng.choice([0.08, 0.05])
@@ -508,6 +523,14 @@ def check_chain(ctx, case, r):
             if maxdiff(T, want) > tol:
                 probs.append(('C11:chain:to_TermList', '%s: the terms of to_TermList(%s) differ from the selected terms of the operator by %.3e'
                               % (desc, {k_: v_ for k_, v_ in opts.items()}, maxdiff(T, want))))
+        elif name == 'prefactor' and 'prefactor' in o:
+            dd = make_dense(r, ops, L, N, finite)
+            stored = C.dense_terms_fast(dd, entry['rep']['terms'], infinite_cell=cell)      # (prefactor reads the stored tensors)
+            for (i, ops_), got in zip(fin[1], o['prefactor']):
+                P = dd.tensor({i + n_: o_ for n_, o_ in enumerate(ops_)})
+                want = np.trace(P.conj().T @ stored) / np.trace(P.conj().T @ P)
+                if abs(cz(got) - want) > 1e-9 * scale:
+                    probs.append(('C11:chain:prefactor', '%s: prefactor(%d, %s) = %s, trace formula gives %s' % (desc, i, ops_, got, want)))
         elif name == 'make_U' and 'U' in o:
             w, V = np.linalg.eigh(ref) if maxdiff(ref, ref.conj().T) < 1e-12 else (None, None)
             import scipy.linalg as sl
@@ -1502,7 +1525,7 @@ CHECKS = {'chain': check_chain, 'ctor': check_ctor, 'evo': check_evo, 'iapply': 
 
 
 def ext_cases(ctx, rng, boost=1.0):
-    counts = {'chain': ctx.pick(70, 560), 'ctor': ctx.pick(28, 224), 'evo': ctx.pick(12, 72), 'iapply': ctx.pick(8, 64), 'ienv': ctx.pick(15, 120),
+    counts = {'chain': ctx.pick(60, 540), 'ctor': ctx.pick(28, 224), 'evo': ctx.pick(12, 72), 'iapply': ctx.pick(8, 64), 'ienv': ctx.pick(12, 108),
               'opts': ctx.pick(16, 128)}
     out = []
     for sub, n in counts.items():
